@@ -703,6 +703,10 @@ def run(ctx):
     add_pair(tpls[0], ("cp", ID_UP), ("rm", ID_UP), 2 if quick else 10 ** 6, 1)        # B would have to create the staged version
     add_pair(tpls[1], ("cpi", ID_UP), ("mvi_old", ID_UP), 2 if quick else 10 ** 6, 1)
     add_pair(tpls[0], ("commit", ID_ST), ("cp", ID_ST), 3 if quick else 10 ** 6, 2)
+    # `new` of an object that is staged but not committed, held BEFORE it takes the lock, while the staged object is
+    # committed: whatever `new` has looked at before the lock must not decide its answer (serial order commit ; new)
+    add_pair(tpls[1], ("new", ID_ST), ("commit", ID_ST), 2 if quick else 10 ** 6, 1)
+    add_pair(tpls[0], ("new256", ID_ST), ("commit", ID_ST), 2 if quick else 10 ** 6, 1)
     # A held at the removal of its lock file (entry: still locked; exit: released, not yet returned) and at every
     # mutating call that follows a release, B = each of commit / cp / reset <path> / upgrade on the same object
     B4 = ["commit", "cp", "reset", "upgrade"]
